@@ -59,7 +59,7 @@ class bpseq_post_init:
     ensures_labels = {0: "pairs-dict-is-the-pairing"}
     modifies = ["BpSeq.pairs@self"]
     loops = {0: {"index": "p", "touches": {"BpSeq.pairs": ["self"]},
-                 "inv": ["pairs_upto(self.pairs, self.entries, p)"]}}
+                 "inv": ["pairs_upto(self.pairs, self.entries, p)"], "labels": {0: "pairs-dict-tracks-the-processed-entries"}}}
 
 
 class bpseq_post_init_any:
@@ -74,19 +74,6 @@ class bpseq_post_init_any:
 
 
 # ------------------------------------------------------------------------------------------------ BpSeq.from_dotbracket
-@spec
-def untouched_entries():
-    """placeholder (frame clauses are written in place: old() needs the enclosing function's entry state)"""
-    return True
-
-
-@spec
-def entries_of_block(L, n):
-    """L is a list of n distinct Entry objects numbered 1..n"""
-    return len(L) == n and forall(lambda x: implies(0 <= x and x < n, L[x].index_ == x + 1)) \
-        and forall(lambda x, y: implies(0 <= x and x < y and y < n, not (L[x] is L[y])))
-
-
 @spec
 def all_fresh(L):
     return forall(lambda x: implies(0 <= x and x < len(L), fresh(L[x])))
@@ -141,7 +128,7 @@ class from_dotbracket:
         FRAME_ENTRY_PAIR,
         "written_pairs(entries, dot_bracket.pairs, q0)",
         "only_pairs(entries, dot_bracket.pairs, M, q0)"],
-        "labels": {1: "only-fresh-entries-written"}}}
+        "labels": {1: "only-fresh-entries-written", 2: "every-decoded-pair-recorded-symmetrically", 3: "no-pair-invented"}}}
     ghost = [
         {"when": "after", "at": "entries = [", "label": "M0", "do": ["let M = fill(len(entries), 0 - 1)"]},
         {"when": "after", "at": "entries[i].pair = ", "loop": 0, "label": "M5", "do": ["let M = upd(M, i, q0)"]},
@@ -852,6 +839,10 @@ class bpseq_elements_prefix:
                 "assert e1 == T[0].index_ - 1 and e4 == T[0].pair - 1 and 0 <= e1 and e1 < n and 0 <= e2 and e2 < n and 0 <= e3 and e3 < n and 0 <= e4 and e4 < n"
                 " and E[e1].pair != 0 and E[e2].pair != 0 and E[e3].pair != 0 and E[e4].pair != 0",
                 "assert_last 2 stop_ends(stopset, E, S, k + 1)"]},
+        {"when": "before", "at": "stops = sorted(stopset)", "label": "stems-done",
+         # (right behind the stems loop: the last hypotheses are its invariants at exit)
+         "do": ["assert_last 5 len(stems) == len(S) and stem_strands(stems, S, E, DB, len(S))",
+                "assert_last 1 stems_are(stems, S)"]},
         {"when": "after", "at": "stops = sorted(stopset)", "label": "stops",
          "do": ["let IX = SORTED_IDX", "let f0 = S[0][0].index_ - 1",
                 "assert len(S) > 0 and f0 in stopset",
@@ -882,6 +873,10 @@ class bpseq_elements_prefix:
                 "assert implies(p0 > 0, strand_at(single_strands[0].strand, E, DB, 0, p0 + 1))",
                 "assert implies(not (p0 > 0), len(single_strands) == 0)",
                 "let SS5 = single_strands"]},
+        {"when": "before", "at": "if stops[-1]", "label": "candidates-done",
+         # (right behind the hairpin / loop-candidate loop: the last hypotheses are its invariants at exit)
+         "do": ["assert_last 5 forall(lambda b: implies(0 <= b and b < len(hairpins), hairpin_ok(hairpins[b], E, DB)))",
+                "assert_last 6 forall(lambda b: implies(0 <= b and b < len(loop_candidates), cand_ok(loop_candidates[b], E, DB)))"]},
         {"when": "after", "at": "if stops[-1]", "label": "tail3",
          "do": ["let m3 = len(single_strands) - 1", "let has3 = p1 < n - 1",
                 "assert E[p1].index_ == p1 + 1 and stops[-1] == p1",
@@ -943,7 +938,8 @@ class bpseq_elements_prefix:
                 "assert_last 12 strand_of(sd, candidate, DB) and E[p].pair != q + 1 and E[p].pair != 0 and E[q].pair != 0",
                 "assert_last 13 sd.first == p + 1 and sd.last == q + 1 and strand_at(sd, E, DB, p, q - p + 1)",
                 "assert_last 14 cand_ok(sd, E, DB)",
-                "assert_last 15 forall(lambda b: implies(0 <= b and b < len(loop_candidates), cand_ok(loop_candidates[b], E, DB)))"]},
+                "assert_last 15 forall(lambda b: implies(0 <= b and b < len(loop_candidates), cand_ok(loop_candidates[b], E, DB)))",
+                "assert_last 16 forall(lambda b: implies(0 <= b and b < len(hairpins), ident(hairpins[b]) < frontier() and hairpin_ok(hairpins[b], E, DB)))"]},
     ]
     loops = {
         0: {"index": "k", "inv": ["len(stems) == k", "stem_strands(stems, S, E, DB, k)", "stop_ends(stopset, E, S, k)"]},
